@@ -10,19 +10,9 @@ From FJ Require Import Lib.Base Lib.Bytes Spec.ImageSpec.
    LZMA is a pair of function arguments (compress, decompress); theorems take them as Section
    variables, campaigns pass the answers of the real codec.
 
-   `fixes`: the current tree has the defects F3-F6 (DESIGN 6).  Each flag switches ON one validation
-   that the proposed fix adds; `fx_none` is the code as it is on the pinned tree.  The campaign
-   selects the flags by probing the four witnesses on the tree under test, so the model follows the
-   tree across the `fix:` commits; the theorems are proved for every value of the flags. *)
-
-Record fixes := mkfx {
-  fx_parity : bool;   (* F3: add_segment rejects an odd data_length *)
-  fx_words : bool;    (* F4: add_data rejects words outside [0, 2^w) *)
-  fx_ranges : bool;   (* F5: add_segment rejects data ranges outside the pool and fields outside u64 *)
-  fx_table : bool     (* F6: the reader validates the segment table like the writer *)
-}.
-Definition fx_none := mkfx false false false false.
-Definition fx_all := mkfx true true true true.
+   The model follows the tree after the `fix:` commits 3bd0fc0 (writer validates what the format cannot
+   represent, F3-F5), ff20c4b (reader validates the segment table, F6) and 0d847a9 (reader rejects a segment
+   whose end is not a 64-bit word address, F19). *)
 
 (* ---- fjm_consts.py ------------------------------------------------------------------------------- *)
 
@@ -67,9 +57,9 @@ Inductive opres := OpOk (st : wstate) (ret : Z) | OpLib | OpRaw (e : wexn).
 
 Definition word_ok (w x : Z) : bool := (0 <=? x) && (x <? 2 ^ w).
 
-(* add_data *)
-Definition add_data (fx : fixes) (c : wcfg) (st : wstate) (l : list Z) : opres :=
-  if fx_words fx && negb (forallb (word_ok (c_w c)) l) then OpLib else
+(* add_data: the loop over the words raises at the first one outside [0, 2^w), before anything is appended *)
+Definition add_data (c : wcfg) (st : wstate) (l : list Z) : opres :=
+  if negb (forallb (word_ok (c_w c)) l) then OpLib else
   OpOk (mkws (ws_segs st) (ws_data st ++ l)) (Z.of_nat (length (ws_data st))).
 
 (* _is_collision, on closed intervals [start, end] *)
@@ -123,18 +113,14 @@ Definition update_to_relative_jumps (w s ds dl : Z) (data : list Z) : option (li
   if (ds + 1 <? - len) || (len <=? ds + 2 * n - 1) then None else
   rel_loop (Z.to_nat n) w s ds 1 data.
 
-(* the validations the proposed F5 fix adds to add_segment *)
-Definition ranges_ok (st : wstate) (s l ds dl : Z) : bool :=
-  (0 <=? ds) && (0 <=? dl) && (ds + dl <=? Z.of_nat (length (ws_data st))) &&
-  (0 <=? s) && (s <? 2 ^ 64) && (l <? 2 ^ 64).
-
 (* add_segment *)
-Definition add_segment (fx : fixes) (c : wcfg) (st : wstate) (s l ds dl : Z) : opres :=
+Definition add_segment (c : wcfg) (st : wstate) (s l ds dl : Z) : opres :=
   if l <=? 0 then OpLib else
   if l <? dl then OpLib else
   if (s mod 2 =? 1) || (l mod 2 =? 1) then OpLib else
-  if fx_parity fx && (dl mod 2 =? 1) then OpLib else            (* absent on the pinned tree *)
-  if fx_ranges fx && negb (ranges_ok st s l ds dl) then OpLib else  (* absent on the pinned tree *)
+  if dl mod 2 =? 1 then OpLib else
+  if (s <? 0) || (2 ^ 64 <=? s + l) then OpLib else
+  if (ds <? 0) || (dl <? 0) || (Z.of_nat (length (ws_data st)) <? ds + dl) then OpLib else
   if addresses_overlap (ws_segs st) s l then OpLib else
   if is_rel c && data_overlap (ws_segs st) ds dl then OpLib else
   if is_rel c then
@@ -209,10 +195,10 @@ Definition write (compress : bytes -> option bytes) (c : wcfg) (st : wstate) : w
 (* a sequence of calls on one Writer *)
 Inductive wop := AddData (l : list Z) | AddSeg (s l ds dl : Z).
 
-Definition apply_op (fx : fixes) (c : wcfg) (st : wstate) (op : wop) : opres :=
+Definition apply_op (c : wcfg) (st : wstate) (op : wop) : opres :=
   match op with
-  | AddData l => add_data fx c st l
-  | AddSeg s l ds dl => add_segment fx c st s l ds dl
+  | AddData l => add_data c st l
+  | AddSeg s l ds dl => add_segment c st s l ds dl
   end.
 
 (* runs the calls in order; a library error leaves the state unchanged and the sequence goes on (all
@@ -221,16 +207,20 @@ Definition apply_op (fx : fixes) (c : wcfg) (st : wstate) (op : wop) : opres :=
    final state (None after an other exception). *)
 Definition wexn_code (e : wexn) : N := match e with ExStruct => 2%N | ExIndex => 3%N | ExKey => 4%N end.
 
-Fixpoint exec (fx : fixes) (c : wcfg) (ops : list wop) (st : wstate) : list (N * Z) * option wstate :=
+Fixpoint exec (c : wcfg) (ops : list wop) (st : wstate) : list (N * Z) * option wstate :=
   match ops with
   | [] => ([], Some st)
   | op :: r =>
-    match apply_op fx c st op with
-    | OpOk st' ret => let '(l, f) := exec fx c r st' in ((0%N, ret) :: l, f)
-    | OpLib => let '(l, f) := exec fx c r st in ((1%N, 0) :: l, f)
+    match apply_op c st op with
+    | OpOk st' ret => let '(l, f) := exec c r st' in ((0%N, ret) :: l, f)
+    | OpLib => let '(l, f) := exec c r st in ((1%N, 0) :: l, f)
     | OpRaw e => ([(wexn_code e, 0)], None)
     end
   end.
+
+(* pool and table small enough for their lengths / offsets to be u64 (always so on a real machine) *)
+Definition fits_u64 (st : wstate) : bool :=
+  (Z.of_nat (length (ws_data st)) <? 2 ^ 64) && (Z.of_nat (length (ws_segs st)) <? 2 ^ 64).
 
 End Writer.
 
@@ -253,6 +243,11 @@ Record image := mkimg {
 }.
 
 Inductive rres := ROk (i : image) | RErr (k : rerr) | RRaw (e : rexn).
+
+(* two loaded images are the same Reader state (the Reader does not keep the pool) *)
+Definition same_loaded (a b : image) : Prop :=
+  i_w a = i_w b /\ i_ver a = i_ver b /\ i_flags a = i_flags b /\ i_table a = i_table b /\
+  i_segs a = i_segs b /\ i_mem a = i_mem b /\ i_zeros a = i_zeros b.
 
 (* _init_segments: [unpack('<QQQQ', f.read(32)) for _ in range(segment_num)] *)
 Definition seg_of_bytes (c : bytes) : tseg := (u_at 0 8 c, u_at 8 8 c, u_at 16 8 c, u_at 24 8 c).
@@ -305,19 +300,35 @@ Fixpoint store_rel (w : N) (m : mem) (a : N) (ws : list N) : mem :=
 Fixpoint zero_fill (m : mem) (a : N) (n : nat) : mem :=
   match n with O => m | S k => zero_fill (mset m a 0) (a + 1) k end.
 
-(* the validation the proposed F6 fix adds, per table entry, against the segments accepted before it *)
-Definition table_entry_ok (prev : list (N * N)) (t : tseg) : bool :=
-  let '(ss, sl, ds, dl) := t in
-  (0 <? sl) && N.even ss && N.even sl && (dl <=? sl) &&
-  forallb (fun p => (fst p + snd p <=? ss) || (ss + sl <=? fst p)) prev.
+(* _validate_segments: true = raises FlipJumpReadFjmException *)
+Definition seg_shape_bad (t : tseg) : bool :=
+  let '(ss, sl, _, dl) := t in (sl =? 0) || N.odd ss || N.odd sl || (sl <? dl) || (2 ^ 64 <=? ss + sl).
+
+(* sorted(...) of (start, end) tuples: lexicographic order; any sort returns the same list *)
+Definition range_leb (a b : N * N) : bool := (fst a <? fst b) || ((fst a =? fst b) && (snd a <=? snd b)).
+Fixpoint insert_range (x : N * N) (l : list (N * N)) : list (N * N) :=
+  match l with
+  | [] => [x]
+  | y :: r => if range_leb x y then x :: l else y :: insert_range x r
+  end.
+Definition sort_ranges (l : list (N * N)) : list (N * N) := fold_right insert_range [] l.
+
+(* for (_, previous_end), (next_start, _) in zip(s, s[1:]): next_start < previous_end *)
+Fixpoint adjacent_overlap (l : list (N * N)) : bool :=
+  match l with
+  | a :: (b :: _) as r => (fst b <? snd a) || adjacent_overlap r
+  | _ => false
+  end.
+
+Definition validate_segments (table : list tseg) : bool :=
+  existsb seg_shape_bad table ||
+  adjacent_overlap (sort_ranges (map (fun t : tseg => let '(ss, sl, _, _) := t in (ss, ss + sl)) table)).
 
 Inductive sres := SOk (m : mem) (z : list (N * N)) | SErr (k : rerr) | SRaw (e : rexn).
 
 (* the body of the loop of _init_memory for one table entry *)
-Definition init_segment (fx : fixes) (thr w : N) (rel : bool) (data : list N) (dlen : N)
-                        (prev : list (N * N)) (m : mem) (t : tseg) : sres :=
+Definition init_segment (thr w : N) (rel : bool) (data : list N) (dlen : N) (m : mem) (t : tseg) : sres :=
   let '(ss, sl, ds, dl) := t in
-  if fx_table fx && negb (table_entry_ok prev t) then SErr ETable else    (* absent on the pinned tree *)
   if N.odd dl then SErr EOddData else
   if dlen <? ds + dl then SErr EPool else
   let ws := firstn (N.to_nat dl) (skipn (N.to_nat ds) data) in
@@ -330,17 +341,16 @@ Definition init_segment (fx : fixes) (thr w : N) (rel : bool) (data : list N) (d
 
 Inductive mres := MOk (segs : list (N * N)) (m : mem) (z : list (N * N)) | MErr (k : rerr) | MRaw (e : rexn).
 
-Fixpoint init_memory (fx : fixes) (thr w : N) (rel : bool) (data : list N) (dlen : N)
-                     (prev : list (N * N)) (m : mem) (table : list tseg) : mres :=
+Fixpoint init_memory (thr w : N) (rel : bool) (data : list N) (dlen : N) (m : mem) (table : list tseg) : mres :=
   match table with
   | [] => MOk [] m []
   | t :: r =>
-    match init_segment fx thr w rel data dlen prev m t with
+    match init_segment thr w rel data dlen m t with
     | SErr k => MErr k
     | SRaw e => MRaw e
     | SOk m1 z1 =>
       let sg := (fst (fst (fst t)), snd (fst (fst t))) in
-      match init_memory fx thr w rel data dlen (prev ++ [sg]) m1 r with
+      match init_memory thr w rel data dlen m1 r with
       | MOk segs m2 z2 => MOk (sg :: segs) m2 (z1 ++ z2)
       | e => e
       end
@@ -348,7 +358,7 @@ Fixpoint init_memory (fx : fixes) (thr w : N) (rel : bool) (data : list N) (dlen
   end.
 
 (* Reader.__init__ *)
-Definition read_thr (fx : fixes) (thr : N) (decompress : bytes -> option bytes) (b : bytes) : rres :=
+Definition read_thr (thr : N) (decompress : bytes -> option bytes) (b : bytes) : rres :=
   (* _init_header_fields *)
   match take header_base_size b with
   | None => RErr EStruct
@@ -387,8 +397,9 @@ Definition read_thr (fx : fixes) (thr : N) (decompress : bytes -> option bytes) 
             | UFuel => RRaw RxFuel
             | UOk data =>
               (* _init_memory *)
+              if validate_segments table then RErr ETable else
               let dlen := N.of_nat (length data) in
-              match init_memory fx thr w ((ver =? 2) || (ver =? 3)) data dlen [] (PositiveMap.empty N) table with
+              match init_memory thr w ((ver =? 2) || (ver =? 3)) data dlen (PositiveMap.empty N) table with
               | MErr k => RErr k
               | MRaw e => RRaw e
               | MOk segs m z => ROk (mkimg w ver flags table dlen segs m z)
@@ -400,7 +411,7 @@ Definition read_thr (fx : fixes) (thr : N) (decompress : bytes -> option bytes) 
     end
   end.
 
-Definition read (fx : fixes) := read_thr fx reserved_dict_threshold.
+Definition read := read_thr reserved_dict_threshold.
 
 (* _get_memory_word under GarbageHandling.Stop, without the memoisation of zeros: None = memory error *)
 Definition get_memory_word (i : image) (a : N) : option N :=
@@ -441,9 +452,6 @@ End Reader.
 Section Glue.
 Local Open Scope N_scope.
 
-Definition fx_of (n : N) : fixes :=
-  mkfx (N.testbit n 0) (N.testbit n 1) (N.testbit n 2) (N.testbit n 3).
-
 Fixpoint pairs_eqb (a b : list (N * N)) : bool :=
   match a, b with
   | [], [] => true
@@ -479,7 +487,7 @@ Definition probe_eqb (r : N + N) (kind v : N) : bool :=
 (* ---- C06 ---------------------------------------------------------------------------------------- *)
 
 Record c06 := mk06 {
-  k_fx : N; k_w : Z; k_ver : Z; k_flags : Z; k_preset : Z;
+  k_w : Z; k_ver : Z; k_flags : Z; k_preset : Z;
   k_ops : list wop;
   (* observed on the real Writer / Reader *)
   k_ctor : bool;                       (* the constructor accepted the configuration *)
@@ -508,10 +516,9 @@ Definition wres_code (r : wres) : N * bytes :=
 
 Definition check06 (c : c06) : bool :=
   let cfg := mkcfg (k_w c) (k_ver c) (k_flags c) (k_preset c) in
-  let fx := fx_of (k_fx c) in
   if negb (cfg_valid cfg) then negb (k_ctor c) else
   k_ctor c &&
-  let '(res, fin) := exec fx cfg (k_ops c) ws_empty in
+  let '(res, fin) := exec cfg (k_ops c) ws_empty in
   zpairs_eqb res (k_opres c) &&
   match fin with
   | None => k_write c =? 9
@@ -519,7 +526,7 @@ Definition check06 (c : c06) : bool :=
     let '(code, file) := wres_code (write (lz_compress c) cfg st) in
     (code =? k_write c) && bytes_eqb file (k_file c) &&
     if code =? 0 then
-      match read fx (lz_decompress c) file with
+      match read (lz_decompress c) file with
       | ROk i => (k_read c =? 0) && pairs_eqb (i_segs i) (k_segs c) && mem_eqb (i_mem i) (k_mem c) &&
                  pairs_eqb (i_zeros i) (k_zeros c) &&
                  forallb (fun p => probe_eqb (get_word i (fst (fst p))) (snd (fst p)) (snd p)) (k_probes c)
@@ -599,7 +606,6 @@ Definition spec06 (c : c06) : bool :=
 (* ---- C10 ---------------------------------------------------------------------------------------- *)
 
 Record c10 := mk10 {
-  t_fx : N;
   t_file : bytes;
   t_off : nat;                         (* where the payload starts according to the header (harness-side parse) *)
   t_lz : option bytes;                 (* what the real decoder answers on that payload (None = LZMAError) *)
@@ -611,11 +617,14 @@ Record c10 := mk10 {
   t_table : list tseg; t_pool : N      (* harness-side parse of an accepted file: its table and pool length *)
 }.
 
+(* a file with the bytes at offset off replaced by p (single-field corruption) *)
+Definition patch (b : bytes) (off : nat) (p : bytes) : bytes := firstn off b ++ p ++ skipn (off + length p) b.
+
 Definition lz_oracle (c : c10) : bytes -> option bytes :=
   fun z => if bytes_eqb z (skipn (t_off c) (t_file c)) then t_lz c else None.
 
 Definition check10 (c : c10) : bool :=
-  match read (fx_of (t_fx c)) (lz_oracle c) (t_file c) with
+  match read (lz_oracle c) (t_file c) with
   | ROk i => (t_class c =? 0) && (i_w i =? t_w c) && (i_ver i =? t_ver c) &&
              pairs_eqb (i_segs i) (t_segs c) && mem_eqb (i_mem i) (t_mem c) && pairs_eqb (i_zeros i) (t_zeros c) &&
              ((t_run c =? 9) || (t_run c =? (if runnable i then 0 else 1)))
